@@ -9,7 +9,15 @@ from ..check import VERIF, unjson
 from ..kj import blocks, read_tree, scratch, splice, splitlines_keep, tabnorm, tag_pairs, write_tree
 from . import c01
 
+from ..manifest_data import PRES_NOTE  # noqa: E402
+
 LEVEL = "proof"
+
+MANIFEST = {
+    "technique": 'Coq proof (LostCode characterisation, path algebra, unreadable files) + differential correspondence',
+    "text": 'Theorems C03_lost_complete_and_only_lost / C03_lost_location / C03_unreadable_untouched over the model of the repaired code.',
+    "note": PRES_NOTE + ' Text-mode decodability is decided by the harness (strict UTF-8) and passed to the model as Unreadable.',
+}
 RULE = ("(a) synthetic code models through the real preserve_usercode_in_files+createoutput with the output directory spelled "
         "absolute / relative / with trailing separator / './x', old files with surviving, vanished, empty tags and invalid UTF-8; "
         "(b) real generators: model m with every tag pair filled, regenerated with a model m' that drops or renames tag-bearing elements, "
